@@ -4,7 +4,7 @@ from .c02 import project
 
 PROP = 'C06'
 PREDICATE = 'C06'
-LEAN_TARGETS = ['LLTD.Props.C06', 'LLTD.Props.C06H']
+LEAN_TARGETS = ['LLTD.Props.C06', 'LLTD.Props.C06H', 'LLTD.Props.C06T']
 VARIANT = 'plain'
 RULE = ('Emit frames from the active mapper with n in {1,2,3,cap-1,cap,random} descriptors that fit (cap = (MTU-34)/14), kinds 0/1, pauses '
         '0/1/255/random, arbitrary addresses, nonzero sequence numbers, MTU in {576,1500,9216}, direct and bridged mappers, preceded by '
